@@ -28,7 +28,7 @@ var hdr = regexp.MustCompile(`^goroutine (\d+) \[([^\]]*)\]:`)
 
 // Snapshot parses runtime.Stack(all).
 func Snapshot() []G {
-	buf := make([]byte, 1<<20)
+	buf := make([]byte, 256<<10)
 	for {
 		n := runtime.Stack(buf, true)
 		if n < len(buf) {
